@@ -26,7 +26,9 @@ def prop(pid, level, explanation, trusted=()):
       "(difference-bound entailment over the structured flow walk of every kernel that writes such a table); every "
       "unsigned subtraction on counters is proven non-negative; every count-min store is proven non-decreasing; the "
       "Python-level multiplicity is proven capped before it reaches a uint32 parameter; ceilings/table dtypes/kernel "
-      "signatures agree. Not decided: the _find_base clause and the float-derived re-encoding stores of _merge_log*.")
+      "signatures agree; _find_base returns a base only after a residual check of its defining equation, raising ValueError otherwise "
+      "(findbase-post); the log merges store the ceiling when the decoded sum reaches max_count (logmerge-shape). "
+      "Not decided: floating-point accuracy of that residual test and the float-derived re-encoding stores of _merge_log*.")
 def c18(ctx):
     F = facts_of(ctx)
     RA.rule_bind(ctx, [c for c in SKETCH_CLASSES if c[1] != "HyperLogLog"])
@@ -35,12 +37,15 @@ def c18(ctx):
     nm = RA.rule_mono(ctx, {"cms"})
     RA.rule_cap(ctx)
     RA.rule_logstep(ctx)
+    RA.rule_findbase_post(ctx)
+    RM.rule_logmerge_shape(ctx)
+    ctx.floor("findbase-post", 3)
     ctx.floor("range", 2 * 15 + 6, "15 decidable counter stores x2 bounds + unsigned subtractions")
     ctx.floor("mono", 6)
     ctx.floor("cap", 2)
     ctx.floor("ceil", 4 * 3)
-    ctx.undecided_clauses.append("'for every accepted log configuration the ceiling decodes to max_count, otherwise ValueError' "
-                                 "(_find_base: convergence of a 200-step floating-point Newton iteration) -- numeric, not decided")
+    ctx.undecided_clauses.append("the floating-point accuracy of the residual test in _find_base (tolerance 1e-9 relative) -- numeric; the "
+                                 "clause 'accepted configuration => ceiling decodes to max_count, else ValueError' is decided structurally by findbase-post")
     ctx.assumptions.append("_counter2value(...) >= 0 (base > 1 is enforced by _find_base raising otherwise)")
 
 
